@@ -541,6 +541,12 @@ Theorem streamstats_window12 :
      = map VNum [0; 2; 6; 7; 8; 8; 10; 14; 15; 18; 18; 20]%Z.
 Proof. split; [|split]; vm_compute; [reflexivity | discriminate | reflexivity]. Qed.
 
+(* after the fix the same 12 rows give the sliding-window sum for the cut 5+5+2 as well *)
+Theorem streamstats_window12_fixed :
+  run (streamstats_cmd false (ss_win 3)) [firstn 5 ss12; firstn 5 (skipn 5 ss12); skipn 10 ss12]
+  = window_sum_spec 3 fv fsv ss12.
+Proof. vm_compute. reflexivity. Qed.
+
 (* ---------- chains ---------- *)
 Definition rebatch_ok (rb : list batch -> list batch) : Prop := forall x, concat (rb x) = concat x.
 Definition stage_ok (s : stage) : Prop :=
